@@ -32,19 +32,30 @@ pub fn for_each_case(path: &str, mut f: impl FnMut(&J)) -> Result<usize, String>
         } else {
             continue;
         };
-        let j: J = serde_json::from_str(&text).map_err(|e| format!("bad case json: {e}: {text}"))?;
+        let j: J = parse_json(&text).map_err(|e| format!("bad case json: {e}: {text}"))?;
         f(&j);
         n += 1;
     }
     Ok(n)
 }
 
+/// JSON without serde_json's nesting limit (cases of the scale universes are hundreds of levels deep; the replay
+/// threads run on large stacks)
+pub fn parse_json(text: &str) -> Result<J, serde_json::Error> {
+    use serde::Deserialize;
+    let mut de = serde_json::Deserializer::from_str(text);
+    de.disable_recursion_limit();
+    let j = J::deserialize(&mut de)?;
+    de.end()?;
+    Ok(j)
+}
+
 pub fn parse_case_line(line: &str) -> Result<J, String> {
     if line.starts_with("\"CASE ") {
         let s: String = serde_json::from_str(line).map_err(|e| format!("bad CASE literal: {e}"))?;
-        serde_json::from_str(&s[5..]).map_err(|e| format!("bad case json: {e}"))
+        parse_json(&s[5..]).map_err(|e| format!("bad case json: {e}"))
     } else {
-        serde_json::from_str(line).map_err(|e| format!("bad case json: {e}"))
+        parse_json(line).map_err(|e| format!("bad case json: {e}"))
     }
 }
 
@@ -119,7 +130,7 @@ fn run(args: &[String]) -> Result<i32, String> {
                         .chunks(chunk.max(1))
                         .map(|part| {
                             let engine = engine_s.clone();
-                            sc.spawn(move || {
+                            std::thread::Builder::new().stack_size(1 << 30).spawn_scoped(sc, move || {
                                 let mut rep = report::Report::default();
                                 for line in part {
                                     let case = match parse_case_line(line) {
@@ -142,7 +153,7 @@ fn run(args: &[String]) -> Result<i32, String> {
                                     }
                                 }
                                 rep
-                            })
+                            }).expect("spawn")
                         })
                         .collect();
                     hs.into_iter()
